@@ -202,3 +202,71 @@ func H03_dynamic() {
 	agree(res, c)
 	sv.Reach("compared")
 }
+
+// H03_calls: the host functions a program invokes are invoked in the same
+// order with the same arguments on every back end (the programs of C06,
+// which call the tracing function t(i, v) in every operand position; here
+// the back ends are compared with each other, C06 compares each with the
+// order the language dictates).
+func H03_calls() {
+	e := NewEngine()
+	tr := &tracer{}
+	tr.register(e)
+	p := lazyProgs[sv.Choice("prog", len(lazyProgs))]
+	c, d := sv.Bool("c"), sv.Bool("d")
+	a, b := sv.Float64("a"), sv.Float64("b")
+	f3t := types.Fun("f3", []*types.Type{types.Num, types.Num, types.Num}, types.Num)
+	fs := val.List(types.List(f3t).List(), 2).List()
+	fs.V[0] = val.Fun(f3t, func(args ...*val.Val) *val.Val { return args[2] })
+	fs.V[1] = val.Fun(f3t, func(args ...*val.Val) *val.Val { return args[0] })
+	tys := map[string]*types.Type{"a": types.Num, "b": types.Num, "c": types.Bool, "d": types.Bool, "fs": types.List(f3t)}
+	names := []string{"a", "b", "c", "d", "fs"}
+	expr, _, cls := e.Front(p.src, tys, names)
+	sv.Assert("accepted", cls == "ok")
+	bv := func(x bool) *val.Val {
+		if x {
+			return val.True
+		}
+		return val.False
+	}
+	vals := map[string]*val.Val{"a": val.Num(a), "b": val.Num(b), "c": bv(c), "d": bv(d), "fs": fs.Vl()}
+	var logs [NBackends][]int
+	var args [NBackends][]*val.Val
+	var res [NBackends]*val.Val
+	var cl [NBackends]string
+	for bk := 0; bk < NBackends; bk++ {
+		tr.log, tr.args = nil, nil
+		bb := bk
+		cl[bk] = sv.Outcome(func() {
+			f := Backend(bb)(expr, e.Rt)
+			ve := val.NewEnv()
+			for _, n := range names {
+				ve.Put(n, vals[n])
+			}
+			res[bb] = f(ve.Inherit(e.Rt))
+		})
+		logs[bk], args[bk] = tr.log, tr.args
+	}
+	const ref = 2
+	for bk := 0; bk < NBackends; bk++ {
+		if bk == ref {
+			continue
+		}
+		same := len(logs[bk]) == len(logs[ref])
+		if same {
+			for k := range logs[ref] {
+				same = sv.And(same, logs[bk][k] == logs[ref][k], RefSameVal(args[bk][k], args[ref][k]))
+			}
+		}
+		sv.Assert("same-host-calls-in-the-same-order-with-the-same-arguments:"+BackendNames[bk], same)
+		sv.Assert("all-fail-or-all-succeed:"+BackendNames[bk], (cl[ref] == "ok") == (cl[bk] == "ok"))
+		if cl[ref] == "ok" && cl[bk] == "ok" {
+			sv.Assert("equal-values:"+BackendNames[bk], RefSameVal(res[ref], res[bk]))
+		}
+	}
+	for bk := 0; bk < NBackends; bk++ {
+		// the failing host functions boomn/boomb stop a program with their own panic
+		sv.Assert("no-internal-fault:"+BackendNames[bk], cl[bk] == "panic:boom" || !InternalFault(cl[bk]))
+	}
+	sv.Reach("compared")
+}
